@@ -7,7 +7,10 @@
   * `deleteApplies` — the document-level hypotheses for one request `delete(from, to)` (valid, normal form, attributes
     creatable, no lone high surrogate, both ends pair-aligned, the top node no textblock) and the model's answer for
     `Transform.delete` as a whole: `replace_step` with the empty slice, then `Step.apply` of what it emits;
-    `deleteRangeApplies` — the same for `Transform.delete_range`.
+    `deleteRangeApplies` — the same for `Transform.delete_range`;
+  * `trivialApplies` — the hypotheses of `trivialFit_replace_applies` for one request `replace(from, to, slice)` with a
+    closed slice (valid document in normal form, slice content in normal form, both ends pair-aligned,
+    `fits_trivially`) and the model's answer for `ReplaceStep(from, to, slice).apply(doc)`.
 -/
 import Lean.Data.Json
 import PM
@@ -62,4 +65,20 @@ def handleDelete (st : St) (op : String) (j : Json) : Option (D (St × Json)) :=
     let f ← nat (← field j "from")
     let t ← nat (← field j "to")
     return (st, ok (Json.mkObj [("hyp", docHypsJson S d f t), ("model", deleteOutcome S d (deleteRangeStep S d f t))]))
+  | "trivialApplies" => some do
+    let S ← getSchema st j
+    let d ← node (← field j "doc")
+    let f ← nat (← field j "from")
+    let t ← nat (← field j "to")
+    let sl ← slice (← field j "slice")
+    let outcome : Json := match S.apply (.replace f t sl false) d with
+      | .ok _ => Json.str "applies"
+      | .error .failed => Json.str "refused"
+      | .error .valueError => Json.str "valueError"
+      | .error .internal => Json.str "internal"
+    return (st, ok (Json.mkObj [("hyp", Json.mkObj [("valid", Json.bool (S.checkNode d)), ("norm", Json.bool (fnorm d.kids)),
+        ("sliceNorm", Json.bool (fnorm sl.content)), ("alignedFrom", Json.bool (pairAlignedB d f)),
+        ("alignedTo", Json.bool (pairAlignedB d t)),
+        ("fits", match fitsTriviallyO S d f t sl with | some b => Json.bool b | none => Json.null)]),
+      ("model", outcome)]))
   | _ => none
